@@ -11,6 +11,7 @@
   it to the allowance can only make the oracle more permissive where the code really pre-allocates, never elsewhere.
 -/
 import NetflowModel.Parser
+import NetflowModel.Fast   -- so that the calls below are compiled against the `@[csimp]` replacements (run time only)
 namespace Netflow.Cost
 
 def capSite (n elemSize : Nat) : Nat := min (n * elemSize) 65536
